@@ -56,6 +56,11 @@ const PRE_DP_T100: &[&str] = &["dp_t100 = (0,)", "for i in 0..100", "  dp_t100 =
 const PRE_DP_T1000: &[&str] = &["dp_t1000 = (0,)", "for i in 0..1000", "  dp_t1000 = (dp_t1000, i)"];
 const PRE_DP_M100: &[&str] = &["dp_m100 = {v: 0}", "for i in 0..100", "  dp_m100 = {v: dp_m100}"];
 const PRE_DP_M1000: &[&str] = &["dp_m1000 = {v: 0}", "for i in 0..1000", "  dp_m1000 = {v: dp_m1000}"];
+// iterators that are advanced by the callbacks handed to their own consumers / adaptors
+const PRE_RI: &[&str] = &["ri = (1..5).iter()"];
+const PRE_RJ: &[&str] = &["rh = {}", "rh.j = (1..5).each |x| rh.j.next()"];
+const PRE_RK: &[&str] = &["rh2 = {}", "rh2.k = (1..5).keep |x| rh2.k.next() != 'zz'"];
+const PRE_RG: &[&str] = &["rg = {}", "rg.f = ||", "  yield 1", "  yield rg.g.next()", "  yield rg.g.next_back()", "rg.g = rg.f()"];
 const PRE_LO: &[&str] = &["l = [3, 1, 2]", "lo = [{@<: |o| l.push(1), @==: |o| l.clear()}, {@<: |o| l.pop(), @==: |o| l.clear()}]"];
 
 const fn it(expr: &'static str, pre: &'static [&'static str], ty: Ty, reduced: bool) -> Item {
@@ -165,6 +170,13 @@ const OTHERS: &[Item] = &[
     it("o4", PRE_O4, Ty::Obj, false),
     it("o5", PRE_O5, Ty::Obj, false),
     it("o6", PRE_O6, Ty::Obj, false),
+    it("ri", PRE_RI, Ty::Iter, false),
+    it("(|x| ri.next() != 'zz')", PRE_RI, Ty::Func, false),
+    it("(|a, b| ri.next())", PRE_RI, Ty::Func, false),
+    it("(|x| ri.to_tuple())", PRE_RI, Ty::Func, false),
+    it("rh.j", PRE_RJ, Ty::Iter, false),
+    it("rh2.k", PRE_RK, Ty::Iter, false),
+    it("rg.g", PRE_RG, Ty::Iter, false),
     it("cy_l", PRE_CY_L, Ty::List, false),
     it("cy_m", PRE_CY_M, Ty::Map, false),
     it("cy_2l", PRE_CY_2, Ty::List, false),
@@ -197,6 +209,24 @@ const CYCLIC_DEEP: &str = "val:cyclic-deep";
 
 fn uses_cyclic_or_deep(items: &[&Item]) -> bool {
     items.iter().any(|i| i.expr.starts_with("cy_") || i.expr.starts_with("dp_"))
+}
+
+const ITER_REENTRANCY: &str = "gen:iterator-reentrancy";
+
+fn uses_reentrant_iterator(items: &[&Item]) -> bool {
+    items.iter().any(|i| [PRE_RI, PRE_RJ, PRE_RK, PRE_RG].iter().any(|p| std::ptr::eq(p.as_ptr(), i.pre.as_ptr())))
+}
+
+/// tags derived from the values a case uses
+fn value_tags(items: &[&Item]) -> Vec<String> {
+    let mut t = vec![];
+    if uses_cyclic_or_deep(items) {
+        t.push(CYCLIC_DEEP.to_string());
+    }
+    if uses_reentrant_iterator(items) {
+        t.push(ITER_REENTRANCY.to_string());
+    }
+    t
 }
 
 fn script_for(items: &[&Item], body: &str) -> String {
@@ -321,7 +351,7 @@ impl Sweep {
             kind: 'R',
             text: script_for(args, &body),
             group: if instance_form { "sweep-instance" } else { "sweep-module" },
-            apis: if uses_cyclic_or_deep(args) { vec![format!("{}.{}", module, name), CYCLIC_DEEP.to_string()] } else { vec![format!("{}.{}", module, name)] },
+            apis: std::iter::once(format!("{}.{}", module, name)).chain(value_tags(args)).collect(),
         })
     }
 
@@ -437,9 +467,7 @@ fn program_cases(thorough: bool, rng: &mut Rng, f: &mut dyn FnMut(Case)) {
     let reduced: Vec<&Item> = all.iter().filter(|i| i.reduced).copied().collect();
     let nums: Vec<&Item> = all.iter().filter(|i| i.ty == Ty::Num).copied().collect();
     let mk = |items: &[&Item], body: String, mut apis: Vec<String>| {
-        if uses_cyclic_or_deep(items) {
-            apis.push(CYCLIC_DEEP.to_string());
-        }
+        apis.extend(value_tags(items));
         Case { kind: 'R', text: script_for(items, &body), group: "program", apis }
     };
     // 1. binary operators and compound assignment: numbers × numbers complete; whole pool² complete
@@ -604,9 +632,7 @@ fn program_cases(thorough: bool, rng: &mut Rng, f: &mut dyn FnMut(Case)) {
             2 => format!("try\n  {}\ncatch err\n  '{{err}}'", e),
             _ => e,
         };
-        if uses_cyclic_or_deep(&used) {
-            apis.push(CYCLIC_DEEP.to_string());
-        }
+        apis.extend(value_tags(&used));
         f(Case { kind: 'R', text: script_for(&used, &body), group: "program-random", apis });
     }
 }
@@ -960,6 +986,46 @@ fn register_pressure_cases(thorough: bool, f: &mut dyn FnMut(Case)) {
             // at the top level (the main chunk's frame)
             let locals0: String = (0..n).map(|i| format!("v{} = {}\n", i, i)).collect();
             emit(format!("{}{}{}\n", pre, locals0, st.replace('~', "")), f);
+        }
+    }
+}
+
+// ---- (f) iterator re-entrancy: every iterator.* entry point applied to an iterator whose callback /
+//          adaptor body advances that same iterator ------------------------------------------------------
+
+fn iterator_reentrancy_cases(eps: &[(String, String)], f: &mut dyn FnMut(Case)) {
+    let callbacks = [
+        "|x| ri.next() != 'zz'",
+        "|a, b| ri.next()",
+        "|x| ri.next_back()",
+        "|x| size ri.to_tuple()",
+        "|x| ri.copy().next()",
+        "|a, b| a + b + (ri.next()?.get() or 0)",
+        "|x| ri.peekable().peek()",
+        "|x| ri.reversed().next()",
+    ];
+    for (module, name) in eps {
+        if module != "iterator" {
+            continue;
+        }
+        let api = vec![format!("iterator.{}", name), ITER_REENTRANCY.to_string()];
+        let mut emit = |body: String| f(Case { kind: 'R', text: body, group: "iterator-reentrancy", apis: api.clone() });
+        for cb in callbacks {
+            // the callback advances the iterator that is being consumed
+            for args in [format!("{}", cb), format!("0, {}", cb), format!("{}, 0", cb), format!("(1..3), {}", cb)] {
+                emit(format!("ri = (1..5).iter()\nr = ri.{}({})\nif koto.type(r) == 'Iterator'\n  r = r.to_tuple()\n(r, ri.to_tuple())\n", name, args));
+                emit(format!("ri = (1..5).iter().peekable()\nri.peek()\nr = ri.{}({})\nif koto.type(r) == 'Iterator'\n  r = r.to_tuple()\nr\n", name, args));
+            }
+        }
+        // an adaptor whose callback advances the adaptor itself (through a map that holds it)
+        for cb in ["|x| rh.j.next()", "|a, b| rh.j.next()", "|x| rh.j.next_back() != 'zz'", "|x| rh.j.to_tuple()", "|x| size rh.j"] {
+            for args in [format!("{}", cb), format!("0, {}", cb), format!("(1..3), {}", cb)] {
+                emit(format!("rh = {{}}\nrh.j = (1..5).{}({})\nr = if koto.type(rh.j) == 'Iterator' then (rh.j.next(), rh.j.next_back(), rh.j.to_tuple()) else rh.j\nr\n", name, args));
+            }
+        }
+        // a generator that pulls from itself while it is being consumed by the entry point
+        for args in ["", "|x| true", "0, |a, b| a", "2"] {
+            emit(format!("rg = {{}}\nrg.f = ||\n  yield 1\n  yield rg.g.next()\n  yield rg.g.{}({})\n  yield 2\nrg.g = rg.f()\nr = rg.g.{}({})\nif koto.type(r) == 'Iterator'\n  r = r.to_tuple()\nr\n", name, args, name, args));
         }
     }
 }
